@@ -211,16 +211,26 @@ func Calls(w *vt.W, path string) {
 
 // Random runs DNA and protein pairs of realistic length.
 func Random(w *vt.W, rng *rand.Rand, n, maxLen int) {
+	sweep := map[int][][]int{}
 	for k := 0; k < n; k++ {
 		var a alphabet.Alphabet = alphabet.DNAgapped
-		if k%3 == 2 {
+		inSweep := (k/4)%2 == 1 // blocks of four consecutive cases share one matrix object, rewritten in place
+		if k%3 == 2 && !inSweep {
 			a = alphabet.Protein
 		}
 		nl := a.Len()
 		match, mismatch, g := 1+rng.Intn(5), -rng.Intn(5), -rng.Intn(6)
 		noisy := rng.Intn(2) == 0
-		m := matrix(nl, func(i, j int) int {
+		// a matrix may be larger than the alphabet (only smaller ones are refused): the surplus rows and columns,
+		// filled with conspicuous scores, must never be read
+		size := nl
+		if k%5 == 1 && !inSweep {
+			size = nl + 1 + rng.Intn(2)
+		}
+		m := matrix(size, func(i, j int) int {
 			switch {
+			case i >= nl || j >= nl:
+				return 9 - 18*((i+j)%2)
 			case i == 0 && j == 0:
 				return 0
 			case i == 0 || j == 0:
@@ -236,6 +246,17 @@ func Random(w *vt.W, rng *rand.Rand, n, maxLen int) {
 			}
 			return mismatch
 		})
+		// a parameter sweep: these cases write their scores into one long-lived matrix instead of handing the
+		// aligners a fresh one (a result may depend on the scores at the time of the call only)
+		if inSweep {
+			if sweep[size] == nil {
+				sweep[size] = matrix(size, func(i, j int) int { return 0 })
+			}
+			for i := range m {
+				copy(sweep[size][i], m[i])
+			}
+			m = sweep[size]
+		}
 		open := -rng.Intn(8)
 		lr, lq := 1+rng.Intn(maxLen), 1+rng.Intn(maxLen)
 		r := make([]int, lr)
